@@ -91,6 +91,9 @@ theorem nsec_end_eq (o n : Nat) : nsec_end o n = o + n := rfl
 theorem bitmap_end_eq (o n : Nat) : bitmap_end o n = o + n := rfl
 theorem bitmap_advance_eq (n : Nat) : bitmap_advance n = 2 + n := by simp [bitmap_advance]
 theorem bitmap_more_iff (o e : Nat) : bitmap_more o e = true ↔ o < e := by simp [bitmap_more]
+/-- the section loops run once per announced entry -/
+theorem q_loop_count_eq (n : Nat) : q_loop_count n = n := rfl
+theorem r_loop_count_eq (n : Nat) : r_loop_count n = n := rfl
 theorem others_count_eq (a b c : Nat) : others_count a b c = a + b + c := rfl
 theorem eager_iff (n : Nat) : eager_others n = true ↔ n = 0 := by simp [eager_others]
 
